@@ -173,13 +173,15 @@ class Gen:
         if r < 0.56: return ("N",)
         if r < 0.56 + self.faults:
             return rng.choice([("PF",), ("PN",), ("AF",), ("AN",), ("OF",), ("ON",), ("RF",), ("SM",), ("N",)])
-        if r < 0.72: return mk_sub(self.lst(dict(ctx, sub=True, d=ctx["d"] + 2)))  # ( … ) incl. (exit n)
+        if r < 0.72 and not ctx.get("errh"): return mk_sub(self.lst(dict(ctx, sub=True, d=ctx["d"] + 2)))  # ( … ) incl. (exit n)
         if r < 0.80 and (self.exit_ok or ctx["sub"]): return ("X", rng.choice([None, self.status(), self.status()]))
         if r < 0.85: return ("R", rng.choice([None, self.status()]))
         if r < 0.88: return ("SE", rng.random() < 0.7)
         if r < 0.90: return ("ST", rng.random() < 0.7)
-        if r < 0.96 and self.callable(ctx): return ("C", rng.choice(self.callable(ctx)))
+        if r < 0.96 and self.callable(ctx) and not ctx.get("errh"): return ("C", rng.choice(self.callable(ctx)))
         if r < 0.98 and self.exec_ok and not ctx["sub"] and not ctx["pure"]: return ("XC", rng.choice([0, 0, 5]))
+        if ctx.get("errh"):
+            return ("F",)
         return ("U", ("P", ("X", self.status())))
 
     def callable(self, ctx):
@@ -193,7 +195,9 @@ class Gen:
         body = ("P", ("E", t))
         n = self.rng.randrange(0, 3)
         if n:
-            hctx = dict(ctx, d=max(ctx["d"], 2) + 1, handler=True)
+            # an ERR handler holds no subshell and calls no function: with errtrace a failing command in a
+            # subshell of the handler starts the handler again (in bash too), without bound
+            hctx = dict(ctx, d=max(ctx["d"], 2) + 1, handler=True, errh=ctx.get("errh") or sig == "TE")
             rest = self.lst(hctx, n)
             body = ("Z", body, rest)
         (self.exit_tags if sig == "TX" else self.err_tags)[t] = body
@@ -212,14 +216,15 @@ class Gen:
             return self.leaf(ctx)
         c2 = dict(ctx, d=d + 1)
         if r < 0.63: return ("B", self.lst(c2))
-        if r < 0.70: return mk_sub(self.lst(dict(c2, sub=True)))
+        if r < 0.70 and not ctx.get("errh"): return mk_sub(self.lst(dict(c2, sub=True)))
         if r < 0.80:
             return ("I", self.lst(c2, 1), self.lst(c2), self.lst(c2) if rng.random() < 0.5 else None)
         if r < 0.87: return ("L", rng.choice([0, 1, 2, 2, 3]), self.lst(c2))
         if r < 0.91:
             # while: either the condition fails at once, or the body ends in an unconditional exit
             if rng.random() < 0.4 or not (self.exit_ok or ctx["sub"]):
-                return ("W", ("P", rng.choice([("F",), ("N",), ("U", ("P", ("X", 3)))])), self.lst(c2))
+                conds = [("F",), ("N",)] + ([] if ctx.get("errh") else [("U", ("P", ("X", 3)))])
+                return ("W", ("P", rng.choice(conds)), self.lst(c2))
             body = self.lst(c2, rng.randrange(0, 2)) if rng.random() < 0.7 else None
             last = ("P", ("X", rng.choice([None, self.status()])))
             return ("W", ("P", ("T",)), ("Z", body, last) if body else last)
@@ -511,10 +516,25 @@ def evaluate(ctx, progs, want_bash):
             m0.append(model_case(fe, False, funs, cmds))
             m1.append(model_case(fe, True, funs, cmds))
             idx.append((pi, fe))
-    impl = ctx.impl("trapsproc", impl_cases, shards=min(core.NPROC, 12))
-    bash = ctx.impl("trapsproc", bash_cases, shards=min(core.NPROC, 12)) if want_bash else [None] * len(impl)
     mod0 = ctx.model("c16", m0)
     mod1 = ctx.model("c16", m1)
+    # The model runs first. A program on which it runs out of fuel recurses without bound in brush AND in
+    # bash (`set -E; trap '( false )' ERR; false`: a subshell starts with no handler marked running): such
+    # a program is never handed to a real shell. Programs are grouped so that all front-ends are skipped.
+    dead = set()
+    for k, (pi, fe) in enumerate(idx):
+        if parse_model(mod0[k]) is None or parse_model(mod1[k]) is None:
+            dead.add(pi)
+    live = [k for k, (pi, fe) in enumerate(idx) if pi not in dead]
+    got = ctx.impl("trapsproc", [impl_cases[k] for k in live], shards=min(core.NPROC, 12))
+    impl = ["SKIPPED"] * len(idx)
+    for k, l in zip(live, got):
+        impl[k] = l
+    bash = [None] * len(idx)
+    if want_bash:
+        gotb = ctx.impl("trapsproc", [bash_cases[k] for k in live], shards=min(core.NPROC, 12))
+        for k, l in zip(live, gotb):
+            bash[k] = l
     return idx, impl_cases, impl, bash, m0, mod0, m1, mod1
 
 
@@ -530,7 +550,7 @@ def classify(ctx, progs, ev, res):
         text = impl_cases[k][2]
         inp = {"frontend": {"c": "-c", "f": "script file", "s": "stdin"}[fe], "script": text,
                "files": dict(zip(impl_cases[k][3::2], impl_cases[k][4::2]))}
-        if a0 is None or a1 is None:
+        if a0 is None or a1 is None or impl[k] == "SKIPPED":
             stats["model_nofuel"] += 1
             continue
         if code is None:
